@@ -199,7 +199,7 @@ def run_unit(name, seed, tier):
     except X.Undecided as e:
         r["undecided"].append(str(e))
         return r
-    path = os.path.join(BUILD, name + ".rs")
+    path = os.path.join(BUILD, name + os.environ.get("VX_BUILD_SUFFIX", "") + ".rs")
     open(path, "w").write(g.text())
     rlimit = u.cfg.get("unit", {}).get("rlimit", 20)
     res = run_verus(path, seed, rlimit)
@@ -231,11 +231,11 @@ def run_unit(name, seed, tier):
              lemmas=[dict(fn=x[2], label=x[4]) for x in u.fn_ranges if x[3] == "lemma" and x[5] == "proof"],
              std_assumed=u.cfg.get("unit", {}).get("assumes", []))
     # vacuity smoke: every contracted function with `ensures false` appended must FAIL
-    if not undecided and (tier == "thorough" or u.cfg.get("unit", {}).get("smoke_in_quick", True)):
+    if not undecided and os.environ.get("VX_NO_SMOKE") != "1" and (tier == "thorough" or u.cfg.get("unit", {}).get("smoke_in_quick", True)):
         try:
             us = Unit(name)
             gs = us.generate(smoke=True)
-            spath = os.path.join(BUILD, name + "_smoke.rs")
+            spath = os.path.join(BUILD, name + os.environ.get("VX_BUILD_SUFFIX", "") + "_smoke.rs")
             open(spath, "w").write(gs.text())
             sres = run_verus(spath, seed, rlimit)
             r["wall"] += sres["wall"]
@@ -262,6 +262,77 @@ def run_unit(name, seed, tier):
         except X.Undecided as e:
             r["undecided"].append(str(e))
     return r
+
+
+# --------------------------------------------------------------------------------------
+# thorough tier: sensitivity self-test. Every `units/<u>/mutants/*.patch` (the unit author's realistic property-breaking
+# edits M*/break* and harmless edits H*/harmless*) and every confirmed seeded change under seeded/<id>/ for this
+# property is applied to a scratch copy of /repo's sources (outside /repo and /verif, removed afterwards) and the
+# unit is re-run on it. A breaking edit must yield a REFUTED labelled obligation; a harmless one must not.
+# The result goes into evidence; it never turns into a VIOLATION (it says something about the check, not the code).
+def _selftest_one(job):
+    import shutil, tempfile
+    unit, name, patch, breaking = job
+    scratch = tempfile.mkdtemp(prefix="vx_selftest_", dir="/var/tmp")
+    try:
+        for sub in ("server/src", "sdk/src"):
+            shutil.copytree(os.path.join(X.REPO, sub), os.path.join(scratch, sub))
+        pr = subprocess.run(["patch", "-p1", "-s", "-f", "-d", scratch, "-i", patch], capture_output=True, text=True)
+        if pr.returncode != 0:
+            return dict(unit=unit, mutant=name, breaking=breaking, outcome="skipped (patch does not apply to the current tree)")
+        env = dict(os.environ, VERIF_REPO=scratch, VX_NO_SMOKE="1", VX_BUILD_SUFFIX="_st_" + re.sub(r"[^A-Za-z0-9]", "_", name))
+        r = subprocess.run([sys.executable, os.path.join(HERE, "check.py"), "--unit", unit], capture_output=True, text=True, env=env)
+        labels = sorted(set(re.findall(r"REFUTED label=(\S+)", r.stdout)) - {"-"})
+        if breaking:
+            outcome = "detected" if labels else ("undecided (exit 2)" if r.returncode == 2 or "label=-" in r.stdout else "MISSED")
+        else:
+            outcome = "FALSE ALARM" if labels else "quiet"
+        return dict(unit=unit, mutant=name, breaking=breaking, outcome=outcome, labels=labels[:6])
+    finally:
+        shutil.rmtree(scratch, ignore_errors=True)
+        for fpath in glob.glob(os.path.join(BUILD, "*_st_" + re.sub(r"[^A-Za-z0-9]", "_", name) + "*")):
+            try:
+                os.remove(fpath)
+            except OSError:
+                pass
+
+
+def mutation_selftest(prop, units):
+    jobs = []
+    for u in units:
+        for pth in sorted(glob.glob(os.path.join(VERIF, "units", u, "mutants", "*.patch"))):
+            n = os.path.basename(pth)[:-6]
+            breaking = not (n.lower().startswith("h"))
+            jobs.append((u, f"{u}/{n}", pth, breaking))
+    for meta in sorted(glob.glob(os.path.join(VERIF, "seeded", "*", "meta.json"))):
+        try:
+            m = json.load(open(meta))
+        except Exception:
+            continue
+        if m.get("property") != prop:
+            continue
+        d = os.path.dirname(meta)
+        for u in units:
+            jobs.append((u, f"seeded/{os.path.basename(d)}@{u}", os.path.join(d, "patch.diff"), True))
+    if not jobs:
+        return None
+    with cf.ThreadPoolExecutor(max_workers=6) as ex:
+        res = list(ex.map(_selftest_one, jobs))
+    # a seeded change counts as detected if any unit of the property detects it
+    seeded = {}
+    for r in res:
+        if r["mutant"].startswith("seeded/"):
+            k = r["mutant"].split("@")[0]
+            seeded.setdefault(k, []).append(r)
+    summary = dict(
+        breaking_total=len([r for r in res if r["breaking"] and not r["mutant"].startswith("seeded/") and not r["outcome"].startswith("skipped")]),
+        breaking_detected=len([r for r in res if r["breaking"] and not r["mutant"].startswith("seeded/") and r["outcome"] == "detected"]),
+        harmless_total=len([r for r in res if not r["breaking"] and not r["outcome"].startswith("skipped")]),
+        harmless_quiet=len([r for r in res if not r["breaking"] and r["outcome"] == "quiet"]),
+        seeded_total=len(seeded),
+        seeded_detected=len([k for k, v in seeded.items() if any(x["outcome"] == "detected" for x in v)]),
+        skipped=len([r for r in res if r["outcome"].startswith("skipped")]))
+    return dict(summary=summary, results=res)
 
 
 # --------------------------------------------------------------------------------------
@@ -362,6 +433,24 @@ def check_property(prop, tier, seed, quiet=False):
                 (kf.append((k, x)) if k else violations.append(("kani", x)))
             else:
                 undecided.append(f"[kani] {h['name']}: {h['result']}")
+    selftest = None
+    seed_sweep = None
+    if tier == "thorough" and not violations:
+        # stability sweep: the same units under two more SMT seeds (a proof that flips with the seed is reported undecided)
+        seed_sweep = []
+        for extra_seed in (seed + 101, seed + 202):
+            for n in units:
+                rr = run_unit(n, extra_seed, "quick")
+                seed_sweep.append(dict(unit=n, seed=extra_seed, refuted=[x["label"] or x["message"] for x in rr["refuted"]
+                                                                       if not match_known(prop, x, known) and (not x["label"] or label_in_prop(x["label"], prop, rr.get("label_props", {})))],
+                                       undecided=rr["undecided"][:3]))
+                if rr["undecided"]:
+                    undecided.append(f"[{n}] seed {extra_seed}: " + rr["undecided"][0][:200])
+        selftest = mutation_selftest(prop, units)
+        if selftest:
+            sm = selftest["summary"]
+            print(f"SELFTEST property={prop} breaking {sm['breaking_detected']}/{sm['breaking_total']} detected, harmless {sm['harmless_quiet']}/{sm['harmless_total']} quiet, "
+                  f"seeded {sm['seeded_detected']}/{sm['seeded_total']} detected, skipped {sm['skipped']}")
     wall = time.time() - t0
     for k, x in kf:
         print(f"KNOWN-FINDING: property={prop} {k['what']} [obligation {x['label']} in {x['fn']}]")
@@ -410,6 +499,7 @@ def check_property(prop, tier, seed, quiet=False):
                         "extracted function (all unlabelled side conditions: callee preconditions, overflow, bounds, "
                         "helper clauses). Text of every function is re-extracted from /repo on this run.",
             kani=kani and dict(cmd=kani.get("cmd"), wall_s=kani.get("wall")),
+            mutation_selftest=selftest, seed_sweep=seed_sweep,
         ),
         assumptions=assumption_summary(results),
         wall_s=round(wall, 2), violations=len(violations),
